@@ -179,8 +179,8 @@ theorem wTx_inv : MInv wTx := by
 /-! ## witness 3: the future is dropped while RX is inside the frame -/
 
 /-- Thread 0 ran `al,0; pu,0,brd.0.0,00,-; mk,0,0,1000` and has begun `df,0`; thread 1 ran
-    `tn,0; ts,0,0` (frame sent); thread 2 is inside `receive_frame` for the response, between
-    `claim_receiving` and the copy (status `RxBusy`); thread 3 has begun `al,0`. -/
+    `tn,0; ts,0,0` (frame sent); thread 2 is inside `receive_frame` for the response, after
+    `claim_receiving` and the marker re-check, about to copy (status `RxBusy`); thread 3 has begun `al,0`. -/
 def wRx : MWorld :=
   { sys := { data := 40,
              slots := [{ st := .rxBusy, first := 0, used := 13,
@@ -198,7 +198,7 @@ def progsRx : List (List String) :=
   [["al,0", "pu,0,brd.0.0,00,-", "mk,0,0,1000", "df,0"], ["tn,0", "ts,0,0"],
    ["rx,ffffffffffff12101010101088a40d1007000000000001000000000100"], ["al,0"]]
 def preRx : List Tick :=
-  List.replicate 14 (Tick.run 0) ++ List.replicate 5 (.run 1) ++ List.replicate 4 (.run 2) ++ [.run 0, .run 3]
+  List.replicate 14 (Tick.run 0) ++ List.replicate 5 (.run 1) ++ List.replicate 5 (.run 2) ++ [.run 0, .run 3]
 
 #guard (repr (runSched (initWorld 1 40 0 0 progsRx) preRx)).pretty == (repr wRx).pretty
 
